@@ -371,6 +371,53 @@ func checkFileFaults(c *mon.Case, f *fileFixture) {
 			}
 		}
 	}
+	// (6) the length of ONE node is asked for (an end-relative seek) while a load fails once; a second
+	// reader obtained from the same node after the outage must see the true length
+	if l := int64(len(f.Content)); l >= 4 {
+		for k := 1; k <= len(spans)+2; k++ {
+			st.ClearFaults()
+			n, err := reify(ls, raw)
+			if err != nil {
+				break
+			}
+			lb, ok := n.(largeBytes)
+			if !ok {
+				break
+			}
+			r1, err := lb.AsLargeBytes()
+			if err != nil {
+				break
+			}
+			st.ResetLog()
+			st.FailReadAt = k
+			st.FailErr = store.ErrInjected
+			c.Guard("end-relative seek with a load failing once", func() { r1.Seek(-2, io.SeekEnd) })
+			hit := st.InjectedHits > 0
+			st.ClearFaults()
+			if !hit {
+				break // declared sizes: no load needed, or fewer than k loads
+			}
+			var pos int64
+			var tail []byte
+			var serr error
+			c.Guard("a second reader of the same node after the outage", func() {
+				r2, e := lb.AsLargeBytes()
+				if e != nil {
+					serr = e
+					return
+				}
+				if pos, serr = r2.Seek(-3, io.SeekEnd); serr == nil {
+					tail, serr = io.ReadAll(r2)
+				}
+			})
+			c.Count("reads_checked", 1)
+			c.Count("length_after_transient_fault", 1)
+			if serr != nil || pos != l-3 || !bytes.Equal(tail, f.Content[l-3:]) {
+				c.Violation("C12|file|stale-after-transient-fault", "%s: after load #%d failed once during an end-relative seek, a second reader of the same node gives Seek(-3,End) = (%d, %v) and %d tail bytes; the file has %d bytes", f.Name, k, pos, serr, len(tail), l)
+				break
+			}
+		}
+	}
 	// (5) a reader that is already streaming is moved forward across block boundaries while the next
 	// load fails once: what it then returns is the content at the new position or the load error,
 	// and after the outage the same reader serves the right bytes
